@@ -3,7 +3,7 @@
 From Coq Require Import List NArith ZArith Bool Lia.
 Import ListNotations.
 From LV Require Import Model.Base Model.Template Model.Eval Model.Derived Model.EvalRun Proofs.BaseProofs Proofs.EvalProofs Proofs.EvalInd.
-From LV Require Import Proofs.FrameProofs Proofs.FrameTheorem Proofs.CacheSim.
+From LV Require Import Proofs.FrameProofs Proofs.TemplateFrame Proofs.FrameTheorem Proofs.CacheSim.
 From LV Require Import Proofs.CoveredDefs.
 
 Lemma cause_eqb_true a b : cause_eqb a b = true -> a = b.
@@ -49,8 +49,9 @@ Section Sound.
 
   Lemma okdb_sound o : okdb u fuel esw sl o = true -> okd u fuel sites esw o.
   Proof.
-    unfold okdb, okd. intros H. apply andb_prop in H as [H Hs]. apply andb_prop in H as [Hw He].
-    split; [exact Hw|]. split; [now apply Bool.eqb_prop in He|].
+    unfold okdb, okd. intros H. apply andb_prop in H as [H Hs]. apply andb_prop in H as [H He].
+    apply andb_prop in H as [Hw Hnp].
+    split; [exact Hw|]. split; [exact Hnp|]. split; [now apply Bool.eqb_prop in He|].
     intros c b Hcb. rewrite forallb_forall in Hs. apply site_cleanb_sound.
     apply (Hs (c, b)). now apply sites_listed.
   Qed.
@@ -169,6 +170,19 @@ Section Sound.
         * now apply (scohb_list_In kwargs o Hk).
         * intros cb Hin. apply Hc. cbn [sites_of]. apply in_or_app. right. apply in_or_app. right.
           now apply (in_sites_list kwargs x cb Hx).
+    - (* ETemplate *)
+      assert (G : forall (l : list (N * expr)), Forall (fun pe => SC (snd pe)) l ->
+        (fix go (l : list (N * expr)) : bool :=
+           match l with [] => true | (_, x) :: l' => scohb u fuel esw sl x o && go l' end) l = true ->
+        (forall cb, In cb ((fix go (l : list (N * expr)) := match l with [] => [] | (_, x) :: l' => sites_of x ++ go l' end) l) ->
+                    sites (fst cb) = Some (snd cb)) ->
+        (fix go (l : list (N * expr)) : Prop :=
+           match l with [] => True | (_, x) :: l' => scoh u fuel sites esw x D /\ go l' end) l).
+      { induction l as [|[p x] l IHl]; intros HF Hbl Hcl; [exact I|].
+        inversion HF as [|? ? Hx HF']; subst. apply andb_prop in Hbl as [Hbx Hbl]. split.
+        - apply (Hx o D HD Hbx). intros cb Hin. apply Hcl. apply in_or_app. now left.
+        - apply IHl; [exact HF'|exact Hbl|]. intros cb Hin. apply Hcl. apply in_or_app. now right. }
+      apply (G ps H Hb). intros cb Hin. apply Hc. exact Hin.
     - (* EComp *)
       apply andb_prop in Hb as [Hbe Hbf]. split.
       + apply (IHe o D HD Hbe). intros cb Hin. apply Hc. cbn [sites_of]. apply in_or_app. now left.
